@@ -26,7 +26,12 @@ where
   ) -> Subscription<'a> {
     let unsub_observer = observer.clone();
     let issub_observer = observer.clone();
-    self.source.call(observer.clone());
+    // an observer that is already closed (its stream ended while the
+    // operator was still subscribing its inputs) has nothing to receive:
+    // the source is not started on its behalf
+    if observer.is_subscribed() {
+      self.source.call(observer.clone());
+    }
     Subscription::new(
       move || {
         unsub_observer.unsubscribe();
